@@ -36,12 +36,12 @@ ASSUMPTIONS = ["values are representable in the requested dtype (integers for in
                "a source field uses the same dimension names as the target mesh",
                "exact-regime inputs (dyadic geometry, small dyadic values, degree <= 2): every binary64 operation on the code path is exact"]
 UNPROVED = ["asArray_dict / asArray_dict_first_listed are stated for dtypes that can hold NaN (junk = none); for int and bool the code loses "
-            "the sentinel when the default is callable or missing (finding D21, theorem dict_sentinel_lost shows it on the model)",
-            "line theorems need a mesh of dimension != 1: Field.line raises on every 1-d mesh (finding D23, theorem line_1d_rejected)",
-            "the array setter accepts a Field with another nvdim (finding D24, theorem setArray_field_wrong_nvdim_accepted); "
+            "the sentinel when the default is callable or missing (finding D41, theorem dict_sentinel_lost shows it on the model)",
+            "line theorems need a mesh of dimension != 1: Field.line raises on every 1-d mesh (finding D43, theorem line_1d_rejected)",
+            "the array setter accepts a Field with another nvdim (finding D44, theorem setArray_field_wrong_nvdim_accepted); "
             "update_field_values rejects it (updateValues_field_wrong_nvdim_rejected)",
             "the data frame's column names are not modelled: the coordinate column clobbered by a value/distance column of the same name "
-            "(finding D22) is seen by the oracle only",
+            "(finding D42) is seen by the oracle only",
             "mesh order = first-index-fastest enumeration is C01's indices_refines; C02 proves that iteration follows Mesh.indices"]
 BUDGET = {"quick": 80, "thorough": 900}
 
@@ -745,7 +745,7 @@ def gen_tol(rng, tier):
 
 def cases(rng, tier):
     quick = tier == "quick"
-    # D21 witnesses (int / bool dictionaries whose default is callable or missing): a fixed small share
+    # D41 witnesses (int / bool dictionaries whose default is callable or missing): a fixed small share
     for kind in ("int", "bool"):
         for mode in ("poly", "none"):
             ms = dict(p1=[0.0, 0.0], p2=[4.0, 2.0], n=[4, 2], dims=None, bc="")
@@ -1267,23 +1267,23 @@ def _sentinel_class(spec, kind):
 
 
 def known(case, text):
-    """D21: dictionary value, dtype int or bool, default callable or missing: the NaN sentinel does not survive the cast,
+    """D41: dictionary value, dtype int or bool, default callable or missing: the NaN sentinel does not survive the cast,
     so cells covered by no listed subregion keep the cast sentinel and a missing default is not reported"""
     if text.startswith("line data frame: coordinate column"):
-        return "D22"
+        return "D42"
     if len(case["mesh"]["n"]) == 1 and text.startswith("line ") and "raised" in text:
-        return "D23"
+        return "D43"
     if "accepted by setter: field(nvdim=" in text:
         # only the class of the finding: a source field whose component count differs from the field's
         for key in ("bad", "spec"):
             l = case.get(key)
             if isinstance(l, dict) and l.get("k") == "field" and l.get("src", {}).get("nvdim") not in (None, case["nvdim"]) \
                     and f"field(nvdim={l['src']['nvdim']}," in text:
-                return "D24"
+                return "D44"
     kind = case.get("dtype")
     about_cells = (text.startswith("cell ") or text.startswith("the specification assigns")
                    or text.startswith("specification of the wrong shape") or text.startswith("Field(value=")
                    or text.startswith("update_field_values(") or text.startswith("Field.array"))
     if about_cells and any(_sentinel_class(case.get(key), kind) for key in ("spec", "spec2")):
-        return "D21"
+        return "D41"
     return None
